@@ -314,12 +314,17 @@ def run(prop, tier, seed, verdict, profile=None, n=None, widen=False):
         "distinct_nontrivial": nt,
         "rule": "random device configurations (1-3 mappings, colliding note keys, action keys incl. pairs, exit sequences) with key "
                 "histories of up to %d events from generator profile %s; distinct = distinct (config, history, disconnect) triples; "
-                "non-trivial = at least 4 events and at least one Note On emitted by the implementation" % (prof.get("max_events", 60), prop),
+                "non-trivial = at least 4 events and at least one Note On emitted by the implementation; axes (where the profile has them) incl. "
+                "twin axes on two handlers with equal or different ranges, full sweeps, creeping across the thresholds, the learning key held "
+                "across axis movement; directed key patterns (held across a mapping switch, same pitch on two channels, held across a panic); "
+                "one case in ten against the slow or stalled 8-slot MIDI sink and single-slot signal channel" % (prof.get("max_events", 60), prop),
         "traces_validated_against_impl": len(cases),
         "samples": [{"case": sample.to_json(), "implementation_output": results[str(sample.cid)]["go"][:12]}],
         "event_kinds": kinds,
         "modes": {m: sum(1 for c in cases if c.meta.get("mode") == m) for m in dev.MODES},
         "with_disconnect": sum(1 for c in cases if c.disconnect),
+        "against_slow_sink": sum(1 for c in cases if c.meta.get("sink") == "slow"), "against_stalled_sink": sum(1 for c in cases if c.meta.get("sink") == "stall"),
+        "full_sweeps": sum(1 for c in cases if c.meta.get("sweep")), "cases_with_axes": sum(1 for c in cases if any(l.startswith("cfg.axis") for l in c.cfg)),
         "corpus_cases": len(corpus),
         "disagreements": len(disag), "monitor_failures": len(viol), "extra_search_cases": extra_searched,
         "panic_twin_histories_compared": twin_checked,
